@@ -295,6 +295,13 @@ fn tok_spec() -> BoxedStrategy<TokSpec> {
         3 => weird_string().prop_map(TokSpec::Unlintable),
         2 => g::word_like().prop_map(TokSpec::Lexed),
         1 => g::sel_str(&["1e999TH", "1e999", "12th", "0x1F", "3.14", "1e308", "1e309", "9007199254740993", "0.1"]).prop_map(TokSpec::Lexed),
+        // numbers whose shortest decimal form needs the exact float parser: 17-20 digit integers,
+        // long fractions, exponents
+        2 => prop_oneof![
+            any::<u64>().prop_map(|n| n.to_string()),
+            (any::<u64>(), 1u32..18).prop_map(|(n, d)| { let s = n.to_string(); let k = (d as usize).min(s.len() - 1); format!("{}.{}", &s[..s.len() - k], &s[s.len() - k..]) }),
+            (any::<u32>(), 0u32..300).prop_map(|(m, e)| format!("{m}e{e}")),
+        ].prop_map(TokSpec::Lexed),
         1 => g::sentence().prop_map(TokSpec::Lexed),
     ]
     .boxed()
